@@ -84,10 +84,12 @@ def discriminator(ln, pred):
         tag = "v%d" % h[0]
         if h[0] == 2 and pred == "C15.SpzPos" and h[3] > 30:
             tag += "/fb=31..62" if h[3] <= 62 else "/fb>=63"
-        if ln.get("la"):
-            tag += "/%s@%d" % (ln["la"], ln["lg"])
-        elif ln.get("dl") and "/" not in tag:
-            tag += "/dl"
+        elif ln.get("la"):
+            tag += "/%s@%d" % (ln["la"], ln["lg"])       # size-ladder stream: array cut by a multiple of the granularity
+        elif ln.get("pat") == "edge":
+            tag += "/edge"                                # boundary-value stream
+        elif ln.get("dl"):
+            tag += "/dl"                                  # file delivered in pieces
         return tag
     if ln.get("dl"):
         return "dl"
@@ -173,17 +175,33 @@ def run(ctx):
     ctx.extra["generated_clouds"] = sum(1 for c in cases if c["kind"] == "cloud")
     for i, c in enumerate(cases):
         c["id"] = i
-    raw = execute(ctx, vh, "main", cases)
+    run_cases = list(cases)
+    quick_rnd = []
+    if quick:   # one execution and one judging pass for the generated and the seeded cases (JVM starts dominate)
+        rp = os.path.join(d, "rnd0.ndjson")
+        core.run_vh(vh, ["splat-random", "-out", rp, "-seed", str(ctx.seed * 1000), "-nspz", "40", "-nclouds", "40",
+                         "-maxn", "50"], timeout=1800)
+        quick_rnd = core.read_ndjson(rp)
+        ctx.extra["random_cases"] = len(quick_rnd)
+        run_cases += quick_rnd
+    # the heavy size-ladder streams sort next to each other: spread them over the shards
+    weight = lambda c: len(c.get("pay") or []) + 1
+    heavy = sorted(run_cases, key=weight, reverse=True)
+    lanes = [[] for _ in range(16)]
+    for i, c in enumerate(heavy):
+        lanes[i % 16 if (i // 16) % 2 == 0 else 15 - i % 16].append(c)
+    run_cases = [c for lane in lanes for c in lane]
+    raw = execute(ctx, vh, "main", run_cases)
     account(ctx, raw)
-    report(ctx, judge(ctx, "main", raw), {c["id"]: c for c in cases}, "TLC-generated cases")
-    ctx.traces = len(cases)
+    report(ctx, judge(ctx, "main", raw), {c["id"]: c for c in run_cases}, "TLC-generated and seeded cases")
+    ctx.traces = len(run_cases)
     ctx.evaluations = len(raw)
     nontrivial = lambda lines: sum(1 for s in lines if '"n":0,' not in s[:60] and '"hdr":[1,0,' not in s[:60]
                                    and '"hdr":[2,0,' not in s[:60])
     ctx.nontrivial = nontrivial(raw)
     # seeded cases at sizes TLC does not enumerate, in rounds (bounded trace size per round)
-    rounds = 1 if quick else 14
-    ctx.extra["random_cases"] = 0
+    rounds = 0 if quick else 14
+    ctx.extra.setdefault("random_cases", 0)
     for rd in range(rounds):
         rp = os.path.join(d, "rnd%d.ndjson" % rd)
         core.run_vh(vh, ["splat-random", "-out", rp, "-seed", str(ctx.seed * 1000 + rd), "-nspz", str(40 if quick else 3000),
